@@ -71,6 +71,24 @@ class Fragment:
         m = self._find(anchor, occ)
         return self.insert_at(m.end(), text)
 
+    def stmt_extent(self, off):
+        """(start, end) of the statement that starts at offset `off`: up to and including its depth-0 `;`."""
+        toks = self._toks()
+        i = next((ix for ix, t in enumerate(toks) if t[1] >= off), None)
+        j = i
+        while j is not None and j < len(toks):
+            k, s_, e_ = toks[j]
+            ch = self.orig[s_:e_]
+            if k == "punct" and ch in "([{":
+                j = match_close(self.orig, toks, j) + 1
+                continue
+            if k == "punct" and ch == ";":
+                return (toks[i][1], e_)
+            if k == "punct" and ch in ")]}":
+                break
+            j += 1
+        raise AnchorLost("%s: statement at %d has no end" % (self.name, off))
+
     def after_stmt(self, anchor, text, occ=1):
         """Insert after the end (the depth-0 `;`) of the statement that starts with / contains `anchor`."""
         m = self._find(anchor, occ)
